@@ -160,9 +160,12 @@ func (fx *FnCtx) havocWithFrame(st, pre *State, m *Modset, as *AssignSet) {
 			e := m.cells[k]
 			key, srt := fx.entrySort(e)
 			old := fx.heap(pre, key, srt)
+			if e.freshOnly {
+				continue // see havocHeaps
+			}
 			h := fx.s.freshConst("Hc", "(Array Ref "+srt+")")
 			st.heaps[key] = h
-			if e.freshOnly || len(as.byKey[key]) == 0 {
+			if len(as.byKey[key]) == 0 {
 				fx.s.assume("true", fmt.Sprintf("(forall ((r Ref)) (! (=> (<= (obj r) %s) (= (select %s r) (select %s r))) :pattern ((select %s r))))", pre.alloc, h, old, h))
 			} else {
 				fx.s.assume("true", fx.frameFact(as, key, srt, e.typ, h, old, pre.alloc))
@@ -172,6 +175,14 @@ func (fx *FnCtx) havocWithFrame(st, pre *State, m *Modset, as *AssignSet) {
 	na := fx.s.freshConst("alloc", "Int")
 	fx.s.assume("true", "(>= "+na+" "+pre.alloc+")")
 	st.alloc = na
+	if !m.top {
+		for _, k := range sortedKeys(m.cells) {
+			key, _ := fx.entrySort(m.cells[k])
+			if h, ok := st.heaps[key]; ok && !m.cells[k].isMap {
+				_, _ = key, h
+			}
+		}
+	}
 }
 
 // the top-level function's own clause
